@@ -392,6 +392,7 @@ type hCall struct {
 	State   string `json:"state"` // shared | nil | poolA | poolB
 	PanicAt int    `json:"panic_at"`
 	Dirty   bool   `json:"dirty"`
+	Nested  string `json:"nested,omitempty"` // the runs started from inside this run's Report callback
 }
 
 type hObs struct {
@@ -401,6 +402,7 @@ type hObs struct {
 	Calls    []hCall        `json:"calls"`
 	Reports  int            `json:"reports"`
 	Panics   int            `json:"panics"`
+	Nested   int            `json:"nested"` // runs started from inside Report callbacks
 	Groups   []string       `json:"groups,omitempty"` // groups that reported somewhere in this history
 	Kinds    map[string]int `json:"kinds,omitempty"`  // rule kinds of this variant (k=rules) / kinds that reported (k=hist, k=local)
 	Mismatch string         `json:"mismatch,omitempty"`
@@ -410,6 +412,12 @@ type hObs struct {
 }
 
 func runOnce(e *ruleguard.Engine, t *hutil.Target, f *ast.File, trunc int, st *ruleguard.RunnerState, panicAt int) (reps []hReport, panicked bool, errMsg string) {
+	return runOnceHook(e, t, f, trunc, st, panicAt, nil)
+}
+
+// runOnceHook: hook (if any) is called from inside the Report callback after report #idx has been recorded (and before
+// the callback panics, if it is to panic there): user code that runs while the walk is in progress.
+func runOnceHook(e *ruleguard.Engine, t *hutil.Target, f *ast.File, trunc int, st *ruleguard.RunnerState, panicAt int, hook func(idx int)) (reps []hReport, panicked bool, errMsg string) {
 	defer func() {
 		if r := recover(); r != nil {
 			if s, ok := r.(string); ok && s == "verif: report callback panic" {
@@ -436,6 +444,9 @@ func runOnce(e *ruleguard.Engine, t *hutil.Target, f *ast.File, trunc int, st *r
 				r.Sugg = fmt.Sprintf("%d-%d:%s", t.Fset.Position(d.Suggestion.From).Offset, t.Fset.Position(d.Suggestion.To).Offset, d.Suggestion.Replacement)
 			}
 			reps = append(reps, r)
+			if hook != nil {
+				hook(len(reps) - 1)
+			}
 			if panicAt >= 0 && len(reps)-1 == panicAt {
 				panic("verif: report callback panic")
 			}
@@ -527,6 +538,19 @@ func genVariant(rng *rand.Rand, vi int, fixed []string) (v hVariant, dropped []s
 		groups = append(groups, src)
 		v.kind[groupName(src)] = kind
 	}
+	// type patterns whose variables a failed match can leave bound; comment rules whose regexps name groups alike
+	tg, tk, tdr := genTypeGroups(rng, vi, 6)
+	dropped = append(dropped, tdr...)
+	for i, g := range tg {
+		groups = append(groups, g)
+		v.kind[groupName(g)] = tk[i]
+	}
+	cg, cdr := genCommentGroups(rng, vi, 6)
+	dropped = append(dropped, cdr...)
+	for _, g := range cg {
+		groups = append(groups, g)
+		v.kind[groupName(g)] = "comment/named-groups"
+	}
 	if vi%2 == 0 {
 		v.fmt = true
 		for i := 0; i < 6; i++ {
@@ -546,6 +570,24 @@ func declFile(f *ast.File, d ast.Decl) *ast.File {
 	g.Decls = []ast.Decl{d}
 	g.Comments = nil
 	return &g
+}
+
+// commentsFile: a copy of f that has no declaration but all the comments (comment rules run after the walk).
+func commentsFile(f *ast.File) *ast.File {
+	g := *f
+	g.Decls = nil
+	return &g
+}
+
+// syntaxOnly drops the reports that lie inside a comment.
+func syntaxOnly(t *hutil.Target, rs []hReport) []hReport {
+	var out []hReport
+	for _, r := range rs {
+		if !anchorOf(t, r).comment {
+			out = append(out, r)
+		}
+	}
+	return out
 }
 
 // stmtFile: a copy of f that has only the function d, whose body has only the statement st (nodes are shared).
@@ -667,6 +709,11 @@ func runHistory(enc *json.Encoder, rng *rand.Rand, nhist, size int, tmp string) 
 	// functions that declare a local type T of their own
 	add("hta/target.go", sameNameTarget(0))
 	add("htb/target.go", sameNameTarget(1))
+	// values of many array lengths / map, func and struct shapes handed to sink() in shuffled orders; comments that
+	// several comment rules match
+	add("hty0/target.go", typeSinkTarget(rng))
+	add("hty1/target.go", typeSinkTarget(rng))
+	add("hcm/target.go", commentTarget(rng))
 	// files that exist only in memory (parsed from a buffer; nothing to read at the file name of their positions),
 	// shorter than the files on disk
 	onDisk := len(pool)
@@ -724,13 +771,21 @@ func runHistory(enc *json.Encoder, rng *rand.Rand, nhist, size int, tmp string) 
 				}
 				got = append(got, r...)
 			}
+			if obs.Mismatch == "" && len(pool[fi].File.Comments) > 0 {
+				// ... followed by what a run over a file that has only the comments reports
+				r, _, emsg := runOnce(e, pool[fi], commentsFile(pool[fi].File), 0, nil, -1)
+				if emsg != "" {
+					obs.Mismatch = "run over the comments alone: " + emsg
+				}
+				got = append(got, r...)
+			}
 			obs.Reports = len(want)
 			for _, r := range want {
 				obs.Kinds[variants[vi].kind[r.Group]]++
 			}
 			if obs.Mismatch == "" {
 				if d := diffReports(want, got); d != "" {
-					obs.Mismatch = "the run over the whole file gives " + d + " (= what runs over each top-level declaration alone give)"
+					obs.Mismatch = "the run over the whole file gives " + d + " (= what runs over each top-level declaration alone, then over the comments alone, give)"
 				}
 			}
 			// one level down: the reports inside a top-level statement of a function body are those of a run over a
@@ -751,7 +806,7 @@ func runHistory(enc *json.Encoder, rng *rand.Rand, nhist, size int, tmp string) 
 						break
 					}
 					obs.Panics++ // counts the statement-level runs of this observation
-					if d := diffReports(inside(want, lo, hi), inside(r, lo, hi)); d != "" {
+					if d := diffReports(inside(syntaxOnly(pool[fi], want), lo, hi), inside(r, lo, hi)); d != "" {
 						obs.Mismatch = fmt.Sprintf("inside statement #%d of %s (offsets %d-%d) the run over the whole file gives %s (= what a run over this statement alone gives)", si, fd.Name.Name, lo, hi, d)
 					}
 				}
@@ -763,6 +818,7 @@ func runHistory(enc *json.Encoder, rng *rand.Rand, nhist, size int, tmp string) 
 			enc.Encode(obs)
 		}
 	}
+	runRuleLocality(enc, variants, pool, srcs, func(vi, fi int) ([]hReport, string) { return reference(vi, fi, 0) })
 	for hi := 0; hi < nhist; hi++ {
 		vi := hi % len(variants)
 		e, err := engineFor(vi, "histories")
@@ -771,6 +827,7 @@ func runHistory(enc *json.Encoder, rng *rand.Rand, nhist, size int, tmp string) 
 			continue
 		}
 		states := map[string]*ruleguard.RunnerState{"shared": ruleguard.NewRunnerState(e), "poolA": ruleguard.NewRunnerState(e), "poolB": ruleguard.NewRunnerState(e), "nil": nil}
+		spare := &statePool{e: e} // the states re-entrant runs borrow for their duration
 		obs := hObs{K: "hist", History: hi, Variant: vi, Kinds: map[string]int{}}
 		seen := map[string]bool{}
 		ncalls := 3 + rng.Intn(10)
@@ -809,6 +866,35 @@ func runHistory(enc *json.Encoder, rng *rand.Rand, nhist, size int, tmp string) 
 					}
 				}
 				ruleguard.VerifDirtyRunnerState(st, pool[(call.File+1)%len(pool)].File, fn)
+			}
+			if call.PanicAt < 0 && len(want) > 0 && rng.Intn(4) == 0 {
+				// a re-entrant call: the Report callback of this run starts further runs (on nil / own / pooled states)
+				nrep := make([]int, len(pool))
+				for fi := range pool {
+					r, _ := reference(vi, fi, 0)
+					nrep[fi] = len(r)
+				}
+				nrep[call.File] = len(want)
+				plan := genHistoryPlan(rng, nrep, call.File, call.Trunc, st, call.State)
+				runPlan(e, pool, plan, spare)
+				names := make([]string, len(pool))
+				for fi := range pool {
+					names[fi] = fmt.Sprintf("file %d", fi)
+				}
+				call.Nested = describePlan(plan, names, "")
+				obs.Calls = append(obs.Calls, call)
+				c := call
+				last = &c
+				mm, nruns, _ := checkPlan(plan, func(fi, trunc int) ([]hReport, string) { return reference(vi, fi, trunc) })
+				obs.Nested += nruns - 1
+				obs.Reports += len(plan.reps)
+				for _, r := range plan.reps {
+					seen[r.Group] = true
+				}
+				if mm != "" {
+					obs.Mismatch = fmt.Sprintf("call #%d %+v, re-entrant: %s", ci, call, mm)
+				}
+				continue
 			}
 			got, panicked, emsg := runOnce(e, pool[call.File], pool[call.File].File, call.Trunc, st, call.PanicAt)
 			obs.Calls = append(obs.Calls, call)
